@@ -160,11 +160,22 @@ impl BuiltinProp {
         let n = 1 + sz(s, 4, 9) as usize;
         let vals: Vec<Term> = (0..n).map(|_| if chance(s, 1, 3) { small_num(s) } else { gen_num(s) }).collect();
         // 0 literal/API  1 variables/API  2 text function form  3 text infix form (binary)
-        let pres = weighted(s, &[3, 3, 2, 2]);
+        // 4 text: the operands are the arguments of a fact (nums(decoy, v1, .., vn).) and reach the function through variables
+        let pres = weighted(s, &[3, 3, 2, 2, 2]);
         let mut sc = Scn::new();
         let mut via_chain = false;
+        let mut extra: Vec<Clause> = vec![];
+        if pres == 4 {
+            let decoy = match s.draw(4) { 0 => Term::Float(2.5), 1 => Term::Int(3), 2 => Term::atom("a"), _ => Term::Float(0.5) };
+            let mut fargs = vec![decoy];
+            fargs.extend(vals.iter().cloned());
+            extra.push(Clause { name: "nums".into(), args: fargs, body: None });
+        }
+        let fact_vars: Vec<Term> = if pres == 4 { vals.iter().map(|_| Term::Var(sc.fresh())).collect() } else { vec![] };
+        if pres == 4 { let mut a = vec![Term::Anon]; a.extend(fact_vars.iter().cloned()); sc.goals.push(Goal::Call("nums".into(), a)); via_chain = true; }
+        let mut fact_iter = fact_vars.iter();
         let args: Vec<Term> = vals.iter().map(|v| {
-            if pres == 0 { v.clone() } else if pres == 1 { let l = s.draw(3); via_chain |= l > 0; sc.bind(s, v.clone(), l) }
+            if pres == 4 { fact_iter.next().unwrap().clone() } else if pres == 0 { v.clone() } else if pres == 1 { let l = s.draw(3); via_chain |= l > 0; sc.bind(s, v.clone(), l) }
             else { let (t, b) = sc.present(s, v.clone()); via_chain |= b; t }
         }).collect();
         let args = if pres == 3 { args.into_iter().take(2).collect::<Vec<_>>() } else { args };
@@ -195,10 +206,10 @@ impl BuiltinProp {
         let fun_left = chance(s, 1, 3);
         let partner = if partner_kind >= 2 && pres <= 1 && chance(s, 1, 3) { let l = s.draw(2); sc.bind(s, partner, l) } else { partner };
         sc.goals.push(if fun_left { Goal::Unify(f.clone(), partner.clone()) } else { Goal::Unify(partner.clone(), f.clone()) });
-        let p = sc.program(vec![]);
+        let p = sc.program(extra);
         // (text forms are written with or without a blank after the commas)
         let tight = chance(s, 1, 3);
-        let style = match pres { 2 => Some(render::Style { tight_commas: tight, ..render::CANON }), 3 => Some(render::Style { infix_arith: true, tight_commas: tight, ..render::CANON }), _ => None };
+        let style = match pres { 2 | 4 => Some(render::Style { tight_commas: tight, ..render::CANON }), 3 => Some(render::Style { infix_arith: true, tight_commas: tight, ..render::CANON }), _ => None };
         if style.is_some() && !program_text_safe(&p) { return CaseResult::Discard("value has no source-text form".into()); }
         let cmp = match run(self.id, &p, style) { Ok(c) => c, Err(r) => return r };
         // bit-exact value check on the result variable
@@ -212,7 +223,7 @@ impl BuiltinProp {
                 None => return fail(self.id, "no-result", "no answer".into(), format!("{}", p)),
             }
         }
-        rep.class(&format!("presentation:{}", ["literal-api", "variables-api", "text-function", "text-infix"][pres]));
+        rep.class(&format!("presentation:{}", ["literal-api", "variables-api", "text-function", "text-infix", "text-operands-from-a-fact"][pres]));
         rep.class(&format!("op:{}", op));
         rep.class(&format!("partner:{}", ["unbound", "unbound", "equal-constant", "different-constant", "same-value-other-type", "neighbouring-number"][partner_kind as usize]));
         let mixed = nums.iter().any(|x| matches!(x, Num::I(_))) && nums.iter().any(|x| matches!(x, Num::F(_)));
